@@ -3,12 +3,12 @@ package h
 // SchedSpec is the scheduler-engine part of a trace (C08); the engine itself
 // lives in package schedw because it needs testing/synctest.
 type SchedSpec struct {
-	Target  string     `json:"target"` // rw | sc | dw
-	Clients [][]Op     `json:"clients"`
-	Picks   []int      `json:"picks,omitempty"` // recorded scheduling decisions (replay)
-	PickSeed uint64    `json:"pick_seed"`
-	MaxSteps int       `json:"max_steps,omitempty"`
+	Target   string `json:"target"` // rw | sc | dw
+	Clients  [][]Op `json:"clients"`
+	Picks    []int  `json:"picks,omitempty"` // recorded scheduling decisions (replay)
+	PickSeed uint64 `json:"pick_seed"`
+	MaxSteps int    `json:"max_steps,omitempty"`
 	// Callbacks is the number of OnPut callbacks registered on a deferred writer before the
 	// concurrent phase; each callback is a scheduling point (other tasks may run while it executes).
-	Callbacks int      `json:"callbacks,omitempty"`
+	Callbacks int `json:"callbacks,omitempty"`
 }
